@@ -14,17 +14,24 @@ boltons.iterutils helpers and compared with an independent oracle:
   chunk_ranges                the clauses of the statement as arithmetic predicates
 
 Extensions beyond the basic space (all within the statement's "every input sequence / all valid parameters"):
-  * presentations that are neither sequences nor one-shot iterators: dict values views and deques (any sequence) for
-    every helper, and dicts, OrderedDicts, key views, sets and frozensets (sequences of distinct hashable items; the
+  * presentations that are neither sequences nor generators: dict values views, deques and list iterators (any
+    sequence) for every helper, and dicts, OrderedDicts, key views, sets and frozensets (sequences of distinct hashable items; the
     expected order is the iteration order of that very object) for the keyed helpers;
   * elements that are not hashable (a list and a dict) for split / strip with a single separator value or a callable;
   * chunk_ranges with sizes / offsets far beyond 2**53 (directed grid around powers of two, a handful of chunks each;
-    coverage is decided by interval arithmetic) - a finite directed grid, NOT an exhaustive space.
+    coverage is decided by interval arithmetic) - a finite directed grid, NOT an exhaustive space;
+  * elements that are EQUAL to the separator / strip value / an earlier element without being the same object (every
+    occurrence in the source is a freshly built object, ints and equal floats alternating; also the falsy pair 0 / 0.0):
+    "the corresponding character" and "the same key" are decided by ==, never by identity;
+  * unique / redundant with key = the name of an attribute that some elements do not have (documented for unique_iter:
+    "falling back on identity when the attribute is not present"; redundant is documented as the complement of unique);
+  * chunk_ranges called with its optional arguments omitted (input_offset 0, overlap_size 0, align False).
 
 Only parameters the statement calls valid are explored (size >= 1, count >= 1, 0 <= overlap < chunk_size,
 maxsplit None or >= 0, bool-valued keys for partition ...).
 """
 import collections
+import fractions
 import itertools
 import signal
 from collections import Counter
@@ -77,14 +84,36 @@ def runaway(x):
     return isinstance(x, list) and len(x) > LIMIT
 
 
-def make_src(elems, seq, form):
+def fresh(x, j=0):
+    """An object equal to x that is not x (where the type allows it): what parsing, arithmetic or I/O hand to a caller.
+    Ints alternate (by position j) between a newly built int and the equal float."""
+    if isinstance(x, bool) or x is None:
+        return x
+    if isinstance(x, int):
+        return float(x) if j % 2 else int(str(x))
+    if isinstance(x, float):
+        return float(repr(x))
+    if isinstance(x, str):
+        return ''.join(list(x))
+    if isinstance(x, tuple):
+        return tuple(list(x))
+    if isinstance(x, fractions.Fraction):
+        return fractions.Fraction(x.numerator, x.denominator)
+    return x
+
+
+def make_src(elems, seq, form, copy=False):
     xs = [elems[i] for i in seq]
+    if copy:
+        xs = [fresh(x, j) for j, x in enumerate(xs)]
     if form == 'list':
         return xs
     if form == 'tuple':
         return tuple(xs)
     if form == 'gen':
         return (x for x in xs)
+    if form == 'iter':                         # a one-shot iterator that is not a generator (and has a length hint)
+        return iter(xs)
     if form == 'str':
         return ''.join(xs)
     if form == 'bytes':
@@ -121,7 +150,15 @@ def pos_elems(form, sepval='s', kind=None):
         return (44, 97, 98)
     if kind == 'unhashable':       # rows of a table, parsed records ...: the non-separator elements cannot be hashed
         return (sepval, ['a'], {'b': 1})
+    if kind == 'equal':            # every occurrence in the source is a fresh object equal to these (see fresh())
+        return (EQUAL_SEP, ('a', 1), 'bee')
+    if kind == 'falsy':            # a separator that is falsy, occurring as 0 and as 0.0
+        return (0, ('a', 1), 'bee')
     return (sepval, 'a', 'b')
+
+
+EQUAL_SEP = 10 ** 5 + 3           # beyond CPython's cache of small ints: int(str(EQUAL_SEP)) is a new object each time
+COPY_KINDS = ('equal', 'falsy')   # element kinds whose source is built from fresh copies
 
 
 def fill_value(name, form):
@@ -267,15 +304,16 @@ def ev_split(c):
         kw['sep'] = split_sep_arg(variant, elems[0])
     if ms != 'unset':
         kw['maxsplit'] = ms
+    copy = c.get('elems') in COPY_KINDS
     text = ''.join(chars[i] for i in seq)
     parts = text.split(None if grouping else ',', -1 if ms in ('unset', None) else ms)
     want = [[elems[chars.index(ch)] for ch in p] for p in parts]
     sepshape = 'sep=None' if grouping else 'sep=given'
     msshape = '' if ms in ('unset', None) else ',maxsplit'
-    it = drain(lambda: iu().split_iter(make_src(elems, seq, form), **kw))
+    it = drain(lambda: iu().split_iter(make_src(elems, seq, form, copy), **kw))
     if runaway(it):
         return [('C09|fn:split_iter|terminates', 'at most %d groups' % len(want), 'more than %d' % LIMIT)]
-    lst = call(iu().split, make_src(elems, seq, form), **kw)
+    lst = call(iu().split, make_src(elems, seq, form, copy), **kw)
     if not (isinstance(lst, list) and all(isinstance(g, (list, tuple)) and all(any(x is e or x == e for e in elems) for x in g)
                                           for g in lst)):
         return [('C09|fn:split|groups-are-lists-of-input-elements(%s)'
@@ -338,11 +376,12 @@ def ev_strip(c):
     if variant != 'value' and stripped != getattr(text, fn)():
         raise AssertionError('oracle: strip() and strip(" ") differ')
     want = [elems[chars.index(ch)] for ch in stripped]
+    copy = c.get('elems') in COPY_KINDS
     I = iu()
-    it = drain(lambda: getattr(I, fn + '_iter')(make_src(elems, seq, form), *args))
+    it = drain(lambda: getattr(I, fn + '_iter')(make_src(elems, seq, form, copy), *args))
     if runaway(it):
         return [('C09|fn:%s_iter|terminates' % fn, 'at most %d items' % len(want), 'more than %d' % LIMIT)]
-    lst = call(getattr(I, fn), make_src(elems, seq, form), *args)
+    lst = call(getattr(I, fn), make_src(elems, seq, form, copy), *args)
     got = list(lst) if isinstance(lst, (list, tuple)) else lst
     if got != want:
         return [('C09|fn:%s|result' % fn, show(want), show(lst))]
@@ -354,11 +393,16 @@ def ev_strip(c):
 # ======================================================================================================
 # unique / redundant / bucketize / partition
 
+MISSING = ('<no such attribute>',)
+
+
 class Obj:
     __slots__ = ('k', 'flag', 'name')
 
     def __init__(self, k, flag, name):
-        self.k, self.flag, self.name = k, flag, name
+        self.flag, self.name = flag, name
+        if k is not MISSING:         # an unset slot: getattr(obj, 'k') raises AttributeError
+            self.k = k
 
     def __repr__(self):
         return self.name
@@ -388,6 +432,14 @@ def universe(name, form):
         return ('', 'x', 0, 5), (False, True, False, True)
     if name == 'strs':      # key: is it a string
         return ('', 'x', 0, 5), (True, True, False, False)
+    if name == 'partial':   # records some of which lack the key attribute: such an element is its own key; one has k=None
+        items = (Obj('A', None, 'A0'), Obj('A', None, 'A1'), Obj(MISSING, None, 'm2'), Obj(MISSING, None, 'm3'),
+                 Obj(None, None, 'n4'))
+        return items, ('A', 'A', items[2], items[3], None)
+    if name == 'fracs':     # plain values: ints and Fractions have .denominator, strings have not
+        return (3, 5, fractions.Fraction(1, 2), 'x', 'y'), (1, 1, 2, 'x', 'y')
+    if name == 'fresh':     # every occurrence in the source is a new object equal to one of these (see fresh())
+        return (EQUAL_SEP, ('p', 7), 'long-string'), (EQUAL_SEP, ('p', 7), 'long-string')
     if name == 'flags':
         fl = (True, True, False, False, True)
         return tuple(Obj(None, f, 'o%d' % i) for i, f in enumerate(fl)), fl
@@ -411,6 +463,8 @@ def key_arg(uni, kind, seq, keys):
         return lambda x: x
     if kind == 'attr':
         return 'k' if uni == 'objs' else 'flag'
+    if kind == 'attr-or-self':     # the name of an attribute that not every element has
+        return {'partial': 'k', 'fracs': 'denominator'}[uni]
     if kind == 'list':
         return [keys[i] for i in seq]
     raise AssertionError(kind)
@@ -424,6 +478,9 @@ def labeller(items):
         for i, it in enumerate(items):
             if type(x) is type(it) and x == it:
                 return i
+        for i, it in enumerate(items):     # an equal object of another type (the float standing for an int)
+            if x == it:
+                return i
         return '?%r' % (x,)
     return lab
 
@@ -436,6 +493,7 @@ def ev_keyed(c):
     kw = {} if kind in ('none', 'default') else {'key': karg}
     I = iu()
     shape = '(key=%s)' % kind
+    copy = uni == 'fresh'
 
     def labs(xs):
         return [lab(x) for x in xs]
@@ -443,13 +501,13 @@ def ev_keyed(c):
     if form in CONT_FORMS:
         # a re-iterable container: one object serves every call; the input sequence is what iterating it gives
         # (for sets: whatever order this very object has)
-        obj = make_src(items, seq, form)
+        obj = make_src(items, seq, form, copy)
         seq = labs(list(obj))
         if not all(isinstance(i, int) for i in seq):
             raise AssertionError('harness: container presentation does not iterate over the input items')
         src = lambda: obj                            # noqa
     else:
-        src = lambda: make_src(items, seq, form)     # noqa
+        src = lambda: make_src(items, seq, form, copy)     # noqa
     seqkeys = [keys[i] for i in seq]
 
     if fn == 'unique':
@@ -534,14 +592,25 @@ def covers(res, lo, hi):
 
 def ev_ranges(c):
     n, size, off, ov, align = c['input_size'], c['chunk_size'], c['input_offset'], c['overlap_size'], c['align']
-    stop, step = off + n, size - ov
     sfx = '(align)' if align else ''
     huge = n > SMALL_RANGE
     cap = HUGE_CAP if huge else n + 4
 
     def go():
         return list(itertools.islice(iu().chunk_ranges(n, size, input_offset=off, overlap_size=ov, align=align), cap + 1))
-    res = call(go)
+    out = judge_ranges(c, call(go), cap, sfx)
+    if off == 0 and ov == 0 and not align and not huge and not out:
+        # the optional arguments left out: the same clauses with input_offset 0, overlap_size 0, align False
+        def go2():
+            return list(itertools.islice(iu().chunk_ranges(n, size), cap + 1))
+        out = judge_ranges(c, call(go2), cap, '(optional-arguments-omitted)')
+    return out
+
+
+def judge_ranges(c, res, cap, sfx):
+    n, size, off, ov, align = c['input_size'], c['chunk_size'], c['input_offset'], c['overlap_size'], c['align']
+    stop, step = off + n, size - ov
+    huge = n > SMALL_RANGE
     if isinstance(res, list) and len(res) > cap:
         if huge:     # the statement does not bound the number of ranges and a huge input cannot be drained: no verdict
             return [(UNDECIDED, None, 'more than %d ranges' % cap)]
@@ -613,11 +682,12 @@ FORMS3 = ('list', 'tuple', 'gen')
 CONT_ANY = ('values', 'deque')                                   # present any sequence
 CONT_DISTINCT = ('dict', 'odict', 'keys', 'set', 'frozenset')    # present sequences of distinct hashable items
 CONT_FORMS = CONT_ANY + CONT_DISTINCT
+SHORT_FORMS = CONT_ANY + ('iter',)                               # further presentations of any sequence, shorter bound
 SHORTER = 2           # container presentations of arbitrary sequences are enumerated to a length this much shorter
 
 
 def maxlen_for(form, maxlen):
-    return maxlen - SHORTER if form in CONT_ANY else maxlen
+    return maxlen - SHORTER if form in SHORT_FORMS else maxlen
 
 
 def seqs(nsym, maxlen):
@@ -657,17 +727,19 @@ def split_shards(B):
             if f == 'bytes' and v == 'set':
                 continue           # {44, 'q'}: nothing new
             out.append((v, f))
-    out += [(v, f) for v in SPLIT_VARIANTS for f in CONT_ANY]
+    out += [(v, f) for v in SPLIT_VARIANTS for f in SHORT_FORMS]
     # unhashable elements: a single separator value is compared with ==, a callable does what it likes; a collection
     # of separators is looked up by hash and therefore not applicable
     out += [(v, f, 'unhashable') for v in ('default', 'None', 'value', 'callable') for f in ('list', 'gen')]
+    # separators in the source that are equal to the given one without being the same object
+    out += [(v, f, k) for k in COPY_KINDS for v in ('value', 'list', 'set') for f in ('list', 'gen')]
     return out
 
 
 def gen_split(B, vf):
     v, form = vf[:2]
     extra = {'elems': vf[2]} if len(vf) > 2 else {}
-    for seq in seqs(3, B['Ls'] - SHORTER if (extra or form in CONT_ANY) else B['Ls']):
+    for seq in seqs(3, B['Ls'] - SHORTER if (extra or form in SHORT_FORMS) else B['Ls']):
         nt = 0 in seq and len(set(seq)) > 1
         for ms in B['maxsplits']:
             yield dict({'fn': 'split', 'seq': seq, 'form': form, 'sep': v, 'maxsplit': ms}, **extra), nt
@@ -684,8 +756,8 @@ def gen_split2(B, vf):
 def gen_strip(B, arg):
     form, fn = arg[:2]
     extra = {'elems': arg[2]} if len(arg) > 2 else {}
-    variants = ('value',) if form in ('str', 'bytes') else ('default', 'None', 'value')
-    for seq in seqs(3, B['Ls'] - SHORTER if (extra or form in CONT_ANY) else B['Ls']):
+    variants = ('value',) if (form in ('str', 'bytes') or extra.get('elems') in COPY_KINDS) else ('default', 'None', 'value')
+    for seq in seqs(3, B['Ls'] - SHORTER if (extra or form in SHORT_FORMS) else B['Ls']):
         nt = 0 in seq and len(set(seq)) > 1
         for v in variants:
             yield dict({'fn': fn, 'seq': seq, 'form': form, 'strip_value': v}, **extra), nt
@@ -707,10 +779,15 @@ KEYED = (
        ('partition', 'truth', 'default', FORMS3), ('partition', 'strs', 'fn', FORMS3),
        ('partition', 'flags', 'attr', FORMS3), ('partition', 'flags', 'fn', FORMS3)]
     + [(f, 'words', 'fn', FORMS3) for f in ('unique', 'redundant', 'bucketize')]
+    # the key names an attribute that some elements lack (unique: documented identity fall-back; redundant: "the
+    # complement of unique").  bucketize / partition document no fall-back: not explored.
+    + [(f, u, 'attr-or-self', FORMS3) for f in ('unique', 'redundant') for u in ('partial', 'fracs')]
+    # equal-but-not-identical occurrences
+    + [('unique', 'fresh', 'none', FORMS3), ('redundant', 'fresh', 'none', FORMS3), ('bucketize', 'fresh', 'fn', FORMS3)]
 )
 # every spec whose key is not a parallel list is also run over the container presentations (dict-like and set-like
 # ones only where the items are hashable)
-KEYED = [(f, u, k, forms + ((CONT_ANY + (CONT_DISTINCT if u != 'lists' else ())) if k != 'list' else ()))
+KEYED = [(f, u, k, forms + ((SHORT_FORMS + (CONT_DISTINCT if u != 'lists' else ())) if k != 'list' else ()))
          for f, u, k, forms in KEYED]
 
 
@@ -771,14 +848,15 @@ HUGE_PART = 'chunk_ranges(huge sizes, directed grid)'
 
 # part -> (case generator of one shard, shard arguments)
 PARTS = {
-    'chunked': (gen_chunked, lambda B: [(f, n) for n in range(1, B['max_size'] + 1) for f in FORMS5 + CONT_ANY]),
+    'chunked': (gen_chunked, lambda B: [(f, n) for n in range(1, B['max_size'] + 1) for f in FORMS5 + SHORT_FORMS]),
     'windowed+pairwise': (gen_windowed, lambda B: [(f, n) for n in ['pairwise'] + list(range(1, B['max_size'] + 1))
-                                                   for f in FORMS5 + CONT_ANY]),
+                                                   for f in FORMS5 + SHORT_FORMS]),
     'split': (gen_split, split_shards),
     'split(two separators)': (gen_split2, lambda B: [('set2', 'list'), ('callable2', 'list'), ('set2', 'gen'),
                                                       ('callable2', 'tuple')]),
-    'strip+lstrip+rstrip': (gen_strip, lambda B: [(f, fn) for fn in ('strip', 'lstrip', 'rstrip') for f in FORMS5 + CONT_ANY]
-                            + [(f, fn, 'unhashable') for fn in ('strip', 'lstrip', 'rstrip') for f in ('list', 'gen')]),
+    'strip+lstrip+rstrip': (gen_strip, lambda B: [(f, fn) for fn in ('strip', 'lstrip', 'rstrip') for f in FORMS5 + SHORT_FORMS]
+                            + [(f, fn, k) for k in ('unhashable',) + COPY_KINDS for fn in ('strip', 'lstrip', 'rstrip')
+                               for f in ('list', 'gen')]),
     'unique+redundant+bucketize+partition': (gen_keyed, lambda B: KEYED),
     'chunk_ranges': (gen_ranges, lambda B: [(al, n) for n in range(1, B['ranges']['chunk_size'] + 1)
                                             for al in (False, True)]),
@@ -851,11 +929,19 @@ def run(ctx):
             'every sequence of length 0..%d over 3 symbols {SEP, a, b}' % B['L'],
         'split, strip, lstrip, rstrip': 'every sequence of length 0..%d over 3 symbols {SEP, a, b}' % B['Ls'],
         'presentations': 'list, tuple, one-shot generator, str, bytes (str/bytes where the elements are characters); '
-                         'dict values view and deque up to a length %d shorter; keyed helpers also over dict, OrderedDict, '
+                         'dict values view, deque and list iterator (iter(list)) up to a length %d shorter; keyed helpers also over dict, OrderedDict, '
                          'dict keys view, set, frozenset holding every sequence of distinct hashable items' % SHORTER,
         'unhashable elements': 'split (sep omitted / None / a single value / a callable) and strip, lstrip, rstrip over '
                                '{SEP, a list, a dict}, list and generator, length 0..%d' % (B['Ls'] - SHORTER),
         'size': '1..%d' % B['max_size'], 'count': list(B['counts']), 'fill': ['unset', None, 'z'],
+        'equal-but-not-identical elements': 'split (sep a value / a list / a set) and strip, lstrip, rstrip over {SEP, a tuple, '
+                                            'a string} with SEP = %d and SEP = 0, every occurrence in the source a freshly '
+                                            'built object (ints alternating with the equal float), list and generator, length '
+                                            '0..%d; unique, redundant, bucketize over such sources, length 0..%d'
+                                            % (EQUAL_SEP, B['Ls'] - SHORTER, B['L']),
+        'attribute-name key with elements lacking the attribute': 'unique, redundant over 5 records (keys A, A, itself, itself, '
+                                                                  'None) and over {3, 5, Fraction(1, 2), "x", "y"} with '
+                                                                  'key="denominator", length 0..%d' % B['Lkey'],
         'sep': sorted(SPLIT_VARIANTS) + ['set of two separators', 'callable accepting two separators'],
         'maxsplit': list(B['maxsplits']),
         'two-separator split': 'every sequence of length 0..%d over 4 symbols {S, T, a, b}' % B['L2'],
@@ -863,7 +949,8 @@ def run(ctx):
                          'words keyed by len); '
                          'key = callable / attribute name / list of keys / default bool; partition keys are bool-valued' % B['Lkey'],
         'chunk_ranges': 'input_size 0..%(input_size)d x chunk_size 1..%(chunk_size)d x input_offset 0..%(input_offset)d x '
-                        'overlap 0..chunk_size-1 x align' % B['ranges'],
+                        'overlap 0..chunk_size-1 x align; with offset 0, overlap 0, align False also called with the '
+                        'optional arguments omitted' % B['ranges'],
     }
     ctx.assumptions += [
         'valid parameters only: size/chunk_size >= 1, count >= 1, maxsplit None or >= 0, 0 <= overlap_size < chunk_size, '
@@ -874,6 +961,11 @@ def run(ctx):
         'occurrence is returned; groups=True: each group holds items of one key',
         'chunk_ranges: only the clauses of the statement (length bound, first begin, last end, overlap chaining, aligned '
         'begins, coverage); ranges are not required to be maximal; nothing is demanded of an empty result for input_size 0',
+        'an element corresponds to the separator character / has the same key when it is == to it (ints and equal floats '
+        'included), whether or not it is the same object',
+        'key = attribute name and an element without that attribute: the element is its own key for unique (documented) '
+        'and redundant (documented as the complement of unique); bucketize / partition document nothing and are not '
+        'explored on such inputs',
         'window / chunk container types are not compared except that chunks of a str are str and chunks of bytes are bytes '
         '(their concatenation must give back the input)',
     ]
